@@ -397,6 +397,41 @@ def sameUnitCost {Q : Type} [BEq Q] (u : Nat → Q) (g : Graph) : Bool :=
   let lm := leafModules g
   lm.all fun p => lm.all fun q => p.name != q.name || u p.node == u q.node
 
+/-! ### what "the same metric on the exported network" needs -/
+
+/-- kept by name: a layer outside choice blocks, or a layer of the winning branch of a combiner -/
+def keptByName (w : String → Nat) (ls : List Leaf) (l : Leaf) : Bool :=
+  !l.isComb && (!l.inBranch || ls.any fun c => c.isComb && l.br == some (parentOf c.name, w c.name))
+
+/-- the leaves `link_combiners_to_branches` hands to combiner `n` for its winning branch -/
+def winnerLeaf (w : String → Nat) (n : String) (l : Leaf) : Bool :=
+  !l.isComb && l.br == some (parentOf n, w n)
+
+/-- number of call sites of the module called `t` -/
+def callSites (ls : List Leaf) (t : String) : Nat := (ls.map (·.name)).count t
+
+/-- names of the combiners, once per call site -/
+def combSites (ls : List Leaf) : List String := (ls.filter (·.isComb)).map (·.name)
+
+/-- executable `NamesSane` (see `Lemmas/SuperNet.lean`): export keeps, by name, the layers outside
+blocks and the winners' layers; a name is a combiner or a layer, not both; a branch tag implies
+`sn_branches` in the name; different blocks have different names -/
+def namesSaneB (w : String → Nat) (g0 g : Graph) : Bool :=
+  let ls := leafModules g0
+  (ls.all fun l => (g.nd l.node).live == keptByName w ls l) &&
+  (ls.all fun l => ls.all fun l' => l.name != l'.name || l.isComb == l'.isComb) &&
+  (ls.all fun l => l.br == none || l.inBranch) &&
+  (ls.all fun c => !c.isComb || ls.all fun c' =>
+    !c'.isComb || parentOf c.name != parentOf c'.name || c.name == c'.name)
+
+/-- executable `SitesSane`: every layer of a winning branch is called once per call site of its
+block, and all call sites of a module charge the same unit cost (same output shape) -/
+def sitesSaneB {Q : Type} [BEq Q] (w : String → Nat) (u : Nat → Q) (g0 : Graph) : Bool :=
+  let ls := leafModules g0
+  (ls.all fun c => !c.isComb || ls.all fun l =>
+    !winnerLeaf w c.name l || callSites ls l.name == callSites ls c.name) &&
+  sameUnitCost u g0
+
 /-! ## executable versions of the hypotheses of the theorems (checked by the drivers on every
 traced graph; `Lemmas/SuperNet.lean` proves them sound) -/
 
